@@ -19,6 +19,13 @@ Three parts (DESIGN 4.C04):
   the same trips on ONE object (`stru.readStr(stru.writeStr(f), f)` and `stru.write(p, f);
   stru.read(p, f)`) must give what a fresh `Structure().readStr` gives.
 
+* Source tie of the writers (`DS.Props.SrcWriters`, `translate/src_writers.py`, `DS/Model/PyFormat.lean`): on every run the
+  `toLines` methods are read with `ast` and emitted as Lean functions of the model's documents (every `"..." % args` as
+  `pyFormat <pieces> <args>`); theorems `writeXyz_eq` ... `writePdb_eq` state that the model writers ARE that
+  transliteration (xcfg, cif: per-template theorems and the normalised text of the function).  The interpreter
+  `pyFormat` and the Lean template parser are themselves compared with CPython's `%` here (`pyformat_differential`).
+  A broken tie doubles the number of generated structures; `tie_verdict` reports it when nothing concrete is found.
+
 Failure keys: `<fmt>:<field>` (first trip), `<fmt>:drift` (text not a fixed point),
 `<fmt>:drift:adp-switch`, `<fmt>:<field>:second-trip`, `<fmt>:write<n>-fails:<Exc>`,
 `<fmt>:read<n>-fails:<Exc>`, `<fmt>:inplace-str|file:<what>`, `tie:<fmt>` (model and implementation
@@ -1610,6 +1617,127 @@ def text_oracle(fmt, text):
     return bad
 
 
+# ------------------------------------------------------------------------------------------
+# the `%` interpreter of the writer source tie (DS/Model/PyFormat.lean) against CPython
+# ------------------------------------------------------------------------------------------
+
+def _lean_chars(t):
+    from translate import src_writers
+    return src_writers.lean_chars(t)
+
+
+def pyformat_cases(rng, per_template=4):
+    """(template, pieces, args) for every `%` template of the seven writers of the tree under examination"""
+    from translate import pysrc, src_writers as sw
+    pysrc.REPO = common.REPO
+    seen = []
+    for fmt, cfg in list(sw.FORMATS.items()) + list(sw.DATA_ONLY.items()):
+        try:
+            tree, cls = sw.read_class(cfg["file"], cfg["cls"])
+        except pysrc.Untranslatable:
+            continue
+        for fn in cls.body:
+            if type(fn).__name__ == "FunctionDef" and fn.name in ("toLines", "titleLines", "cryst1Lines", "atomLines"):
+                for t, _ in sw.templates_of(fn):
+                    if t not in seen:
+                        seen.append(t)
+    cases = []
+    for t in seen:
+        try:
+            ps = sw.parse_template(t)
+        except pysrc.Untranslatable:
+            continue            # outside the subset: the tie is broken by construction
+        for _ in range(per_template):
+            args = []
+            for p in ps:
+                if p[0] != "conv":
+                    continue
+                ty, prec = p[6], p[5]
+                if ty in (".f", ".g"):
+                    kind = rng.random()
+                    if kind < 0.15:
+                        v = 0.0
+                    elif kind < 0.4 and ty == ".f":      # a printing tie and its neighbours
+                        q = 10.0 ** -(6 if prec is None else prec)
+                        v = (rng.randrange(-2000, 2000) + 0.5) * q
+                    elif kind < 0.5:
+                        v = float(rng.randrange(-3, 4))
+                    else:
+                        v = rng.choice([-1, 1]) * rng.random() * 10.0 ** rng.randrange(-9, 9)
+                    args.append(v)
+                elif ty == ".i":
+                    args.append(rng.choice([0, 1, -1, rng.randrange(-10 ** 6, 10 ** 8), rng.randrange(0, 100), -2.75, 3.99]))
+                elif ty == ".s":
+                    args.append(rng.choice(["", "C", "Na", "Fe3+", "TITLE   x", "a b", "x" * rng.randrange(0, 90), 7]))
+                else:
+                    args.append(rng.choice([" ", "A", "z"]))
+            cases.append((t, ps, args))
+    return cases
+
+
+def pyformat_differential(ck):
+    """every template of the writers on seeded arguments: CPython's `%` against `pyFormat (parseTemplate t)` run by lean"""
+    cases = pyformat_cases(ck.rng)
+    if not cases:
+        return 0
+
+    def val(v):
+        if isinstance(v, float):
+            n, d = Fraction(v).as_integer_ratio()
+            return "(.num (mkRat (%d) %d))" % (n, d)
+        if isinstance(v, int):
+            return "(.int (%d))" % v
+        return "(.str %s)" % _lean_chars(v)
+
+    lines = ["import DS.Model.PyFormat", "open DS.Dec DS.PyFormat",
+             "def showS (s : Str) : String := \",\".intercalate (s.map (fun c => toString c.toNat))"]
+    expected = []
+    for t, ps, args in cases:
+        named = [p[1] for p in ps if p[0] == "conv" and p[1] is not None]
+        if named:
+            d = dict(zip(named, args))
+            try:
+                expected.append(t % d)
+            except Exception as e:  # noqa: BLE001
+                expected.append("<%s>" % type(e).__name__)
+            lines.append("#eval IO.println (showS (pyFormatD ((parseTemplate %s).getD []) [%s]))" % (
+                _lean_chars(t), ", ".join("(%s, %s)" % (_lean_chars(k), val(v)) for k, v in zip(named, args))))
+        else:
+            try:
+                expected.append(t % tuple(args))
+            except Exception as e:  # noqa: BLE001
+                expected.append("<%s>" % type(e).__name__)
+            lines.append("#eval IO.println (showS (pyFormat ((parseTemplate %s).getD []) [%s]))" % (
+                _lean_chars(t), ", ".join(val(v) for v in args)))
+    os.makedirs(common.WORK, exist_ok=True)
+    path = os.path.join(common.WORK, "PyFormatDiff_%d.lean" % os.getpid())
+    with open(path, "w", encoding="utf-8") as f:
+        f.write("\n".join(lines) + "\n")
+    try:
+        with common.LeanLock():
+            common.lake_build(["DS.Model.PyFormat"])
+            rc, out, err = common.run(["lake", "env", "lean", path], cwd=common.LEAN, timeout=600)
+    finally:
+        try:
+            os.remove(path)
+        except OSError:
+            pass
+    got = out.split("\n")[:len(cases)]
+    got = ["".join(chr(int(x)) for x in ln.split(",")) if ln.strip() else "" for ln in got]
+    if rc != 0 or len(got) != len(cases):
+        raise common.Broken("pyformat differential: lean failed (rc=%s)\n%s" % (rc, (out + err)[-1500:]))
+    nbad = 0
+    for (t, ps, args), e, g in zip(cases, expected, got):
+        if e != g:
+            nbad += 1
+            if nbad == 1:
+                ck.fail("pyformat-interpreter", "DS.PyFormat.pyFormat disagrees with CPython: %r %% %r -> python %r, lean %r" % (t, args, e, g),
+                        {"kind": "interpreter", "template": t, "args": [repr(a) for a in args], "python": e, "lean": g}, no_failing_input=True)
+    ck.coverage["pyformat_differential"] = {"cases": len(cases), "templates": len({c[0] for c in cases}), "mismatches": nbad}
+    return len(cases)
+
+
+
 def gen_cases(ck, n_per_format):
     cases = []
     for fmt in FORMATS:
@@ -1658,7 +1786,17 @@ def corpus():
 
 def run(ck):
     ok, linfo = ck.lean_obligations("DS.Props.C04")
-    nper = 150 if ck.tier == "quick" else 5000
+    # the writers of the model ARE the transliterated `toLines` methods of the tree under examination
+    tie_ok, tie_info = ck.source_tie("DS.Props.SrcWriters", groups=("writers",))
+    t_pf = time.time()
+    npf = pyformat_differential(ck)
+    ck.notes.append("pyformat differential: %d cases in %.1fs" % (npf, time.time() - t_pf))
+    widen = 1 if tie_ok else 2
+    tie_broken = ", ".join(tie_info.get("broken_theorems") or tie_info.get("failed_modules") or ["translator"]) if not tie_ok else ""
+    if not tie_ok:
+        ck.notes.append("source tie DS.Props.SrcWriters broken (%s; untranslatable: %s): search widened x%d" % (
+            tie_broken, json.dumps(tie_info.get("translator", {}).get("writers", {}).get("untranslatable", {}))[:600], widen))
+    nper = (150 if ck.tier == "quick" else 5000) * widen
     cases = corpus() + gen_cases(ck, nper)
     t_or = time.time()
     results = []
@@ -1763,7 +1901,8 @@ def run(ck):
                     ck.fail(b2[0], "%s  [minimal structure: %s]  (found by the search around a model/implementation disagreement: %s)" % (
                         b2[1], describe(small), msg), {"kind": "oracle", "format": fmt, "spec": small, "observed": b2[1]})
                 else:
-                    ck.fail(key, "model and implementation disagree on trip %d (%s): %s" % (k + 1, fmt, msg),
+                    ck.fail(key, "model and implementation disagree on trip %d (%s): %s%s" % (
+                        k + 1, fmt, msg, "  [source tie DS.Props.SrcWriters broken: %s]" % tie_broken if tie_broken else ""),
                             {"kind": "correspondence", "format": fmt, "spec": spec, "trip": k + 1, "observed": msg,
                              "stream": "fmt.%s.write / fmt.%s.parse" % (fmt, fmt),
                              "theorem": "DS.Props.C04.roundtrip_%s (model no longer matches the code)" % fmt}, no_failing_input=True)
@@ -1822,6 +1961,11 @@ def run(ck):
         "PDB SIGATM/SIGUIJ records and standard deviations (sigxyz, sigo, sigU other than the zero defaults of pdffit) are not generated; PDB titles longer than 60 characters are compared with the model but not covered by roundtrip_pdb",
         "attributes a format has no record for (title in rawxyz/xcfg/cif, pdffit/xcfg dictionaries) left over by an in-place read are C16's subject and are ignored here",
     ]
+    ck.assumptions.append(
+        "writer source tie: translate/src_writers.py (ast transliteration of toLines; its binding table maps source expressions of the "
+        "structure to document fields and is the inverse of doc_fields above) and DS/Model/PyFormat.lean (the % interpreter, compared with "
+        "CPython on every run) are in the trusted base; PDB SIGATM/SIGUIJ branch bound to False; xcfg/cif control flow tied as normalised text")
+    ck.tie_verdict(tie_ok, tie_info, "C04 writers (parsers/p_*.py toLines)")
     if not ok and not ck.violations:
         ck.fail("lean-build", "Lean obligations of C04 no longer check: %r" % linfo["failed_modules"],
                 {"kind": "proof-obligation", "theorem": linfo["failed_modules"], "errors": linfo["errors"]}, no_failing_input=True)
